@@ -16,15 +16,17 @@ FUNCS = ["f", "g", "UPPER", "lower", "COUNT", "MAX", "COALESCE", "length"]
 ALIASES = ["zal1", "zal2", "zal3", "zal4", "zal5", "zal6", "zal7", "zal8"]
 STRINGS = ["users", "select", "from_str", "t1", "zz top", "it''s", "x%"]
 TYPES = ["INTEGER", "VARCHAR(10)", "TEXT"]
+NILADIC = ["CURRENT_DATE", "CURRENT_TIMESTAMP", "CURRENT_TIME"]   # emitted only while the parser builds a bare FunctionCall for them
 CMP = ["=", "<>", "<", ">", "<=", ">="]
 JOINS = [("JOIN", "INNER"), ("INNER JOIN", "INNER"), ("LEFT JOIN", "LEFT"), ("LEFT OUTER JOIN", "LEFT"),
          ("RIGHT JOIN", "RIGHT"), ("FULL JOIN", "FULL"), ("CROSS JOIN", "CROSS")]
 
 
 class Gen:
-    def __init__(self, rng, payload=None):
+    def __init__(self, rng, payload=None, niladic=False):
         self.rng = rng
         self.alias_n = 0
+        self.niladic = niladic      # set from a probe of the parser (lib/c15.py): MNiladic of Model/QRef.v
 
     def pick(self, l):
         return self.rng.choice(l)
@@ -36,6 +38,8 @@ class Gen:
     # ---- expressions ----
     def atom(self, sq, depth):
         r = self.rng.random()
+        if self.niladic and r < 0.04:
+            return ("niladic", self.pick(NILADIC))
         if r < 0.45:
             q = self.pick(["", "", "", "zal1", "t1", "users"])
             return ("col", q, self.pick(COLS))
@@ -188,6 +192,8 @@ def items_expr(e, acc):
         acc.append(("C", e[1], e[2]))
     elif k in ("star", "lit"):
         pass
+    elif k == "niladic":
+        acc.append(("F", e[1]))
     elif k == "bin":
         items_expr(e[2], acc); items_expr(e[3], acc)
     elif k == "un":
@@ -336,6 +342,8 @@ def rx(e, L, boolctx=False):
         return (e[1] + "." if e[1] else "") + "*"
     if k == "lit":
         return L.kw(e[3]) if e[2] in ("null", "bool") else e[3]
+    if k == "niladic":
+        return e[1]
     if k == "bin":
         op = e[1]
         if op.upper() in LOGIC:
@@ -349,7 +357,7 @@ def rx(e, L, boolctx=False):
             s = rx(x, L)
             if x[0] in ("bin", "un", "in", "insub", "between", "exists"):
                 return "(" + s + ")"
-            return L.par(s) if x[0] in ("col", "lit", "func", "cast") else s
+            return L.par(s) if x[0] in ("col", "lit", "func", "cast", "niladic") else s
         return L.join([opd(e[2]), op, opd(e[3])])
     if k == "un":
         return L.join([L.kw("NOT"), "(" + rx(e[2], L, True) + ")"])
@@ -510,6 +518,8 @@ def cexpr(e):
         return "(MStar %s)" % cs(e[1])
     if k == "lit":
         return "(MLit %s %s)" % (cs(e[1]), cs(e[2]))
+    if k == "niladic":
+        return "(MNiladic %s)" % cname(e[1])
     if k == "bin":
         return "(MBin %s %s %s)" % (cs(e[1]), cexpr(e[2]), cexpr(e[3]))
     if k == "un":
